@@ -83,3 +83,19 @@ pub fn set_milp_node_limit(limit: Option<u64>) {
 pub(crate) fn milp_node_limit() -> Option<u64> {
     MILP_NODE_LIMIT.with(|cell| cell.get())
 }
+
+thread_local! {
+    static RANGE_OBSERVER: Cell<Option<fn(i64, i64, bool)>> = const { Cell::new(None) };
+}
+
+/// Registers a callback that is told the bounds of every `from..to` range just before the
+/// range is turned into a list (on this thread). Observing only: the range is built as usual.
+pub fn set_range_observer(observer: Option<fn(i64, i64, bool)>) {
+    RANGE_OBSERVER.with(|cell| cell.set(observer));
+}
+
+pub(crate) fn note_range(from: i64, to: i64, to_inclusive: bool) {
+    if let Some(observer) = RANGE_OBSERVER.with(|cell| cell.get()) {
+        observer(from, to, to_inclusive);
+    }
+}
